@@ -433,10 +433,20 @@ class NetworkService(ModelElement):
         """
         assert(isinstance(ns, NetworkService))
         self_iface = self.add_interface(name=self.name + '-' + ns.name, itype=InterfaceType.ServicePort, **kwargs)
-        other_iface = ns.add_interface(name=ns.name + '-' + self.name, itype=InterfaceType.ServicePort)
-        # link them together with L2Path
-        peer_link = Link(name=self_iface.name + '-link', topo=self.topo, etype=ElementType.NEW,
-                         interfaces=[self_iface, other_iface], ltype=LinkType.L2Path)
+        other_iface = None
+        try:
+            other_iface = ns.add_interface(name=ns.name + '-' + self.name, itype=InterfaceType.ServicePort)
+            # link them together with L2Path
+            peer_link = Link(name=self_iface.name + '-link', topo=self.topo, etype=ElementType.NEW,
+                             interfaces=[self_iface, other_iface], ltype=LinkType.L2Path)
+        except Exception:
+            # don't leave half of a peering behind
+            self.topo.graph_model.remove_cp_and_links(node_id=self_iface.node_id)
+            self._load_interfaces()
+            if other_iface is not None:
+                self.topo.graph_model.remove_cp_and_links(node_id=other_iface.node_id)
+                ns._load_interfaces()
+            raise
 
     def unpeer(self, ns) -> None:
         """
